@@ -1,6 +1,8 @@
 package main
 
 import (
+	"archive/zip"
+	"bytes"
 	"errors"
 	"fmt"
 	"io/fs"
@@ -26,6 +28,7 @@ type plug struct {
 type respCase struct {
 	cwd   string
 	plugs []plug
+	fs    string // os.Stat of the archives' parent directories before the run (line field 4)
 }
 
 func encPlugs(ps []plug) string {
@@ -47,13 +50,109 @@ func encPlugs(ps []plug) string {
 	return strings.Join(parts, ";")
 }
 
-func respLine(c respCase) string { return "resp\t" + hx.Enc(c.cwd) + "\t" + encPlugs(c.plugs) }
+// respLine: the three-field form when every out is a directory (model: runResponses), the
+// four-field form with what os.Stat says about the archives' parent directories when some out is a
+// .jar / .zip archive (model: runResponsesA).
+func respLine(c respCase) string {
+	line := "resp\t" + hx.Enc(c.cwd) + "\t" + encPlugs(c.plugs)
+	if !hasArchive(c) {
+		return line
+	}
+	return line + "\t" + c.fs
+}
+
+func absOutOf(cwd, out string) string {
+	if !filepath.IsAbs(out) {
+		out = filepath.Join(cwd, out)
+	}
+	return filepath.Clean(out)
+}
+
+func isArchive(absOut string) bool {
+	e := filepath.Ext(absOut)
+	return e == ".jar" || e == ".zip"
+}
+
+func hasArchive(c respCase) bool {
+	for _, p := range c.plugs {
+		if isArchive(absOutOf(c.cwd, p.out)) {
+			return true
+		}
+	}
+	return false
+}
+
+// statFS lists what os.Stat says (now) about the parent directory of every archive out.
+func statFS(c respCase) string {
+	seen := map[string]bool{}
+	var parts []string
+	for _, p := range c.plugs {
+		o := absOutOf(c.cwd, p.out)
+		if !isArchive(o) {
+			continue
+		}
+		d := filepath.Dir(o)
+		if seen[d] {
+			continue
+		}
+		seen[d] = true
+		if fi, err := os.Stat(d); err == nil {
+			k := "f"
+			if fi.IsDir() {
+				k = "d"
+			}
+			parts = append(parts, hx.Enc(d)+":"+k)
+		}
+	}
+	if len(parts) == 0 {
+		return "-"
+	}
+	return strings.Join(parts, ";")
+}
+
+// readArchive lists the entries of a zip archive held in memory (nil, false when it is not one).
+func readArchive(data string) (map[string]string, bool) {
+	zr, err := zip.NewReader(bytes.NewReader([]byte(data)), int64(len(data)))
+	if err != nil {
+		return nil, false
+	}
+	out := map[string]string{}
+	for _, f := range zr.File {
+		rc, err := f.Open()
+		if err != nil {
+			return nil, false
+		}
+		var b bytes.Buffer
+		_, err = b.ReadFrom(rc)
+		rc.Close()
+		if err != nil {
+			return nil, false
+		}
+		if _, dup := out[f.Name]; dup {
+			out[f.Name+"\x00duplicate-entry"] = b.String()
+		}
+		out[f.Name] = b.String()
+	}
+	return out, true
+}
+
+func encArchive(entries map[string]string) string {
+	names := sortedKeys(entries)
+	parts := make([]string, len(names))
+	for i, n := range names {
+		parts[i] = hx.Enc(n) + "~" + hx.Enc(entries[n])
+	}
+	return "@" + strings.Join(parts, "+")
+}
 
 func parseRespLine(fields []string) (respCase, error) {
-	if len(fields) != 3 {
+	if len(fields) != 3 && len(fields) != 4 {
 		return respCase{}, errors.New("bad resp line")
 	}
 	c := respCase{cwd: hx.Dec(fields[1])}
+	if len(fields) == 4 {
+		c.fs = fields[3]
+	}
 	if fields[2] == "-" {
 		return c, nil
 	}
@@ -147,6 +246,16 @@ func snapshot(root string) map[string]string {
 
 var outPool = []string{"gen", "gen", "gen", "./gen", "gen/", "gen/sub", "gen/../gen", "other", "../w/gen", "@abs/gen", ".", "é/out",
 	"gen//sub/", "../o2", "gen2", "@abs/w2/../gen", "new/deep/out"}
+
+// archive outs (.jar / .zip): two archives in one directory, archives inside other plugins' out
+// directories (gen, gen/sub, other, ., é/out), the same archive under several spellings, a jar and a
+// zip side by side, an archive whose parent does not exist / is a file, a dot-file archive, and
+// names that only look like archives (directories).
+var archivePool = []string{"gen/a.zip", "gen/a.zip", "gen/b.zip", "gen/a.jar", "gen/b.jar", "a.zip", "lib.jar", "./gen//a.zip", "gen/sub/../a.zip",
+	"@abs/gen/a.zip", "../w/gen/a.zip", "gen/a.zip/", "gen/sub/c.zip", "other/x/lib.jar", "gen2/a.jar", "gen/.zip", "é/out/ü.jar",
+	"new/deep/x.zip", "gen.txt/x.zip", "gen/A.ZIP", "gen/a.zip.d", "gen/a.jar.zip"}
+var archiveSiblings = []string{"gen", "gen", "gen/", "gen/sub", "other", ".", "é/out", "gen2", "other/x"}
+
 var goodNames = []string{"a.txt", "b.go", "x/y.go", "x/z.go", "c", "é.txt", "d e/f.txt", "existing.txt", "a/b"}
 var spellNames = []string{"a//b", "./c", "x/../a.txt", "x/./y.go", "./x//z.go", "a.txt/", "q/../../gen/a.txt"}
 var hostileNames = []string{"../x", "/abs", "..", "a/../../e", "", ".", "../w/keep.txt", "../../sentinel.txt", "/etc/passwd",
@@ -166,6 +275,20 @@ func genRespCase(r *hx.Rand, cwd string) respCase {
 	c := respCase{cwd: cwd}
 	np := 1 + r.Intn(4)
 	mainOut := hx.Pick(r, outPool)
+	archives := r.Chance(2, 5)
+	pickOut := func() string { return hx.Pick(r, outPool) }
+	if archives {
+		if np == 1 && r.Chance(2, 3) {
+			np = 2 + r.Intn(3)
+		}
+		pickOut = func() string {
+			if r.Chance(1, 3) {
+				return hx.Pick(r, archiveSiblings)
+			}
+			return hx.Pick(r, archivePool)
+		}
+		mainOut = pickOut()
+	}
 	hostileRate := r.Intn(3)         // 0: none
 	produced := map[string][]rfile{} // cleaned absolute out -> plain files produced so far
 	absOf := func(out string) string {
@@ -177,7 +300,7 @@ func genRespCase(r *hx.Rand, cwd string) respCase {
 	for i := 0; i < np; i++ {
 		p := plug{out: mainOut}
 		if r.Chance(1, 2) {
-			p.out = hx.Pick(r, outPool)
+			p.out = pickOut()
 		}
 		p.out = strings.Replace(p.out, "@abs", filepath.Dir(cwd)+"/w", 1)
 		key := absOf(p.out)
@@ -193,6 +316,9 @@ func genRespCase(r *hx.Rand, cwd string) respCase {
 				f.name = hx.Pick(r, hostileNames)
 			default:
 				f.name = fmt.Sprintf("u%d_%d.txt", i, j)
+			}
+			if archives && r.Chance(1, 30) {
+				f.name = "META-INF/MANIFEST.MF" // a plugin that brings its own manifest
 			}
 			prev := produced[key]
 			if (len(prev) > 0 && r.Chance(2, 5)) || r.Chance(1, 12) {
@@ -231,7 +357,12 @@ func genRespCase(r *hx.Rand, cwd string) respCase {
 
 func classify(err error) string {
 	msg := err.Error()
+	var pathErr *fs.PathError
 	switch {
+	case errors.As(err, &pathErr) && pathErr.Op == "stat" && errors.Is(err, fs.ErrNotExist):
+		return "archive-parent-missing" // os.Stat(filepath.Dir(archive)) in writeZip
+	case strings.HasPrefix(msg, "not a directory: "):
+		return "archive-parent-not-dir"
 	case errors.Is(err, fs.ErrNotExist):
 		return "not-exist"
 	case strings.HasSuffix(msg, "expected to be relative"):
@@ -341,9 +472,21 @@ func runResponseCase(run *hx.Run, c respCase, line string) (out string) {
 	if len(changed) == 0 {
 		return "ok -"
 	}
+	archiveOut := map[string]bool{}
+	for _, p := range c.plugs {
+		if o := absOutOf(c.cwd, p.out); isArchive(o) {
+			archiveOut[o] = true
+		}
+	}
 	parts := make([]string, len(changed))
 	for i, p := range changed {
 		parts[i] = hx.Enc(p) + "=" + hx.Enc(after[p])
+		if archiveOut[p] {
+			if entries, ok := readArchive(after[p]); ok {
+				parts[i] = hx.Enc(p) + "=" + encArchive(entries)
+				run.Count("B:ok-archive-written")
+			}
+		}
 	}
 	return "ok " + strings.Join(parts, ",")
 }
@@ -382,10 +525,37 @@ func oracleDisk(c respCase, err error, before, after map[string]string, fail fun
 	for _, p := range changed {
 		ok := false
 		for _, o := range absOuts {
-			ok = ok || under(o, p)
+			if isArchive(o) {
+				ok = ok || p == o // an archive out is ONE file
+			} else {
+				ok = ok || under(o, p)
+			}
 		}
 		if !ok {
-			fail("C17-write-outside-out", "file written outside every plugin's out directory: "+p)
+			fail("C17-write-outside-out", "file written outside every plugin's output location (out directory or archive): "+p)
+		}
+	}
+	// archives: their entries are looked at as <archive>/<entry>
+	vafter := map[string]string{}
+	for p, v := range after {
+		vafter[p] = v
+	}
+	archives := map[string]map[string]string{} // archive out -> entries (nil: missing or not a zip)
+	for _, o := range absOuts {
+		if !isArchive(o) {
+			continue
+		}
+		if _, seen := archives[o]; seen {
+			continue
+		}
+		archives[o] = nil
+		if data, ok := after[o]; ok {
+			if entries, ok := readArchive(data); ok {
+				archives[o] = entries
+				for n, v := range entries {
+					vafter[o+"/"+n] = v
+				}
+			}
 		}
 	}
 	for _, p := range deleted {
@@ -419,6 +589,9 @@ func oracleDisk(c respCase, err error, before, after map[string]string, fail fun
 	// plugin returned exists there afterwards
 	if err == nil {
 		for _, p := range changed {
+			if _, isArch := archives[p]; isArch {
+				continue // a configured archive; its entries are judged below
+			}
 			if _, ok := produced[p]; !ok {
 				fail("C17-write-not-attributable", "file written that is not Join(out, name) of any plugin's returned file: "+p)
 			}
@@ -427,8 +600,47 @@ func oracleDisk(c respCase, err error, before, after map[string]string, fail fun
 			if !under(absOuts[i], target) {
 				continue // escaping names make the run fail; reported by C17-write-outside-out if not
 			}
-			if _, ok := after[target]; !ok {
-				fail("C17-returned-file-missing", fmt.Sprintf("plugin%d returned a file that is not under its out directory afterwards: %s", i, target))
+			if _, ok := vafter[target]; !ok {
+				where := "under its out directory"
+				if isArchive(absOuts[i]) {
+					where = "in its archive " + absOuts[i]
+				}
+				fail("C17-returned-file-missing", fmt.Sprintf("plugin%d returned a file that is not %s afterwards: %s", i, where, target))
+			}
+		}
+		// every archive that received files exists, is an archive, and holds nothing but what the
+		// plugins configured with THIS archive returned (plus the manifest of a jar)
+		for _, o := range sortedKeys(archives) {
+			entries := archives[o]
+			received := false
+			own := map[string]bool{}
+			for i, p := range c.plugs {
+				if absOuts[i] != o {
+					continue
+				}
+				for _, f := range p.files {
+					if f.ip == "" {
+						received = true
+						own[filepath.ToSlash(filepath.Clean(f.name))] = true
+					}
+				}
+			}
+			if entries == nil {
+				if _, exists := after[o]; exists {
+					fail("C17-archive-corrupt", "the archive out "+o+" exists after the run but is not a zip archive")
+				} else if received {
+					fail("C17-archive-missing", "the archive out "+o+" received files but does not exist after a successful run")
+				}
+				continue
+			}
+			for _, n := range sortedKeys(entries) {
+				if own[n] || (n == "META-INF/MANIFEST.MF" && filepath.Ext(o) == ".jar") {
+					continue
+				}
+				fail("C17-archive-foreign-entry", fmt.Sprintf("archive %s holds entry %q which no plugin configured with this archive returned", o, n))
+			}
+			if _, ok := entries["META-INF/MANIFEST.MF"]; !ok && filepath.Ext(o) == ".jar" {
+				fail("C17-jar-manifest-missing", "the jar "+o+" has no META-INF/MANIFEST.MF")
 			}
 		}
 	}
@@ -470,9 +682,15 @@ func sectionB(run *hx.Run, r *hx.Rand) {
 	n := run.N(1500, 25000)
 	for i := 0; i < n; i++ {
 		c := genRespCase(r.Fork(uint64(i)), cwd)
+		if hasArchive(c) {
+			resetTree(root)
+			c.fs = statFS(c)
+			run.Count("B:with-archive-out")
+		}
 		line := respLine(c)
 		out := runResponseCase(run, c, line)
-		nontrivial := strings.HasPrefix(out, "ok ") && out != "ok -" || out == "err duplicate" || out == "err not-exist" || out == "err no-insertion-point"
+		nontrivial := strings.HasPrefix(out, "ok ") && out != "ok -" || out == "err duplicate" || out == "err not-exist" || out == "err no-insertion-point" ||
+			out == "err archive-parent-missing" || out == "err archive-parent-not-dir"
 		run.Case(line, out, nontrivial)
 		run.Count(fmt.Sprintf("B:plugins:%d", len(c.plugs)))
 		if i < 2 {
